@@ -101,10 +101,12 @@ func runC06(c *Ctx) {
 		do := c.UniqueCall("C06.A", p, f, false, "(*net/http.Client).Do")
 		if do != nil {
 			c06Attempts(c, p, f, do)
-			c06Rewind(c, p, f, do)
+			c06Rewind(c, p, "C06.S", f, do)
 		}
 	}
 	c06Refusal(c, p)
+	c.Rule("C06.B", "the replay buffer retains exactly the bytes it handed out, at the offsets it handed them out", 9)
+	c06Retain(c, p)
 	c06Fence(c, p, f)
 	c06Unblock(c, p)
 }
@@ -182,7 +184,7 @@ func c06Attempts(c *Ctx, p *Prog, f *ssa.Function, do ssa.Instruction) {
 	c.Check("C06.A", "upload:single-do-site", p, do.Pos(), len(Calls(f, "(*net/http.Client).Do", "(*net/http.Client).Post", "(net/http.RoundTripper).RoundTrip")) == 1, "one request-sending call site in the upload function", "more than one request-sending call site in the upload function")
 }
 
-func c06Rewind(c *Ctx, p *Prog, f *ssa.Function, do ssa.Instruction) {
+func c06Rewind(c *Ctx, p *Prog, rule string, f *ssa.Function, do ssa.Instruction) {
 	isRew := func(i ssa.Instruction) bool {
 		if isSeekStart(i) {
 			return true
@@ -202,16 +204,16 @@ func c06Rewind(c *Ctx, p *Prog, f *ssa.Function, do ssa.Instruction) {
 	})
 	if len(rews) == 0 {
 		if InLoop(do.Block()) {
-			c.Bad("C06.S", "retry:rewind-on-every-edge", p, do.Pos(), "the upload is retried but no rewind of the replay buffer (Seek(0, io.SeekStart), directly or through a helper) exists: a retry continues mid-stream")
+			c.Bad(rule, "retry:rewind-on-every-edge", p, do.Pos(), "the upload is retried but no rewind of the replay buffer (Seek(0, io.SeekStart), directly or through a helper) exists: a retry continues mid-stream")
 		} else {
-			c.OK("C06.S", "retry:rewind-on-every-edge", p, do.Pos(), "no retry")
+			c.OK(rule, "retry:rewind-on-every-edge", p, do.Pos(), "no retry")
 		}
 		return
 	}
 	// Do → … → Do without passing a rewind
 	w := &Walk{Target: func(i ssa.Instruction) bool { return i == do }, Avoid: isRew}
 	hit, path := w.FromInstr(do)
-	c.Check("C06.S", "retry:rewind-on-every-edge", p, do.Pos(), hit == nil, "every path from one client.Do to the next passes a rewind to the first byte", "a retry path reaches client.Do again without rewinding the body ("+PathString(p, path)+"): the attempt starts mid-stream and the proxy may acknowledge a truncated upload")
+	c.Check(rule, "retry:rewind-on-every-edge", p, do.Pos(), hit == nil, "every path from one client.Do to the next passes a rewind to the first byte", "a retry path reaches client.Do again without rewinding the body ("+PathString(p, path)+"): the attempt starts mid-stream and the proxy may acknowledge a truncated upload")
 	// each rewind's error is tested and failure does not reach Do
 	for k, rw := range rews {
 		key := fmt.Sprintf("retry:rewind#%d-failure-gives-up", k+1)
@@ -224,7 +226,7 @@ func c06Rewind(c *Ctx, p *Prog, f *ssa.Function, do ssa.Instruction) {
 			}
 		}
 		if errVal == nil {
-			c.Bad("C06.S", key, p, rw.Pos(), "the error of the rewind is discarded: a refused rewind (prefix no longer replayable) is followed by another attempt")
+			c.Bad(rule, key, p, rw.Pos(), "the error of the rewind is discarded: a refused rewind (prefix no longer replayable) is followed by another attempt")
 			continue
 		}
 		var tst *ssa.If
@@ -241,14 +243,14 @@ func c06Rewind(c *Ctx, p *Prog, f *ssa.Function, do ssa.Instruction) {
 			}
 		}
 		if tst == nil {
-			c.Bad("C06.S", key, p, rw.Pos(), "the error of the rewind is not tested")
+			c.Bad(rule, key, p, rw.Pos(), "the error of the rewind is not tested")
 			continue
 		}
 		w := &Walk{Target: func(i ssa.Instruction) bool { return i == do }}
 		hit, path := w.FromBlock(tst.Block().Succs[succ])
-		c.Check("C06.S", key, p, rw.Pos(), hit == nil, "a refused rewind leaves the function", "after a refused rewind the code still reaches client.Do ("+PathString(p, path)+")")
+		c.Check(rule, key, p, rw.Pos(), hit == nil, "a refused rewind leaves the function", "after a refused rewind the code still reaches client.Do ("+PathString(p, path)+")")
 		// and the success branch is the only way to Do: Do is dominated by the rewind in the same iteration
-		c.Check("C06.S", fmt.Sprintf("retry:rewind#%d-tested-before-do", k+1), p, rw.Pos(), Dominates(tst, do) || !Dominates(rw, do), "the rewind result is checked before the next attempt", "the next attempt starts before the rewind result is checked")
+		c.Check(rule, fmt.Sprintf("retry:rewind#%d-tested-before-do", k+1), p, rw.Pos(), Dominates(tst, do) || !Dominates(rw, do), "the rewind result is checked before the next attempt", "the next attempt starts before the rewind result is checked")
 	}
 }
 
@@ -298,10 +300,10 @@ func c06Refusal(c *Ctx, p *Prog) {
 		}
 	}
 	type tc struct {
-		name                    string
-		writeHead, off, whence  int64
-		wantReset               bool
-		why                     string
+		name                   string
+		writeHead, off, whence int64
+		wantReset              bool
+		why                    string
 	}
 	cases := []tc{
 		{"prefix-incomplete:writeHead=len", L, 0, 0, false, "the buffer is full, bytes beyond it may already have been sent and cannot be replayed"},
@@ -356,7 +358,7 @@ func c06Fence(c *Ctx, p *Prog, post *ssa.Function) {
 	guards := []*Guard{}
 	for _, fld := range []string{"readHead", "writeHead", "buf", "gen"} {
 		guards = append(guards, &Guard{Type: "agent/utils.bufferedReadSeeker", Field: fld, Lock: "agent/utils.bufferedReadSeeker.mu",
-			Why: "net/http's transport may still be reading the body of a failed attempt in its own goroutine when the retry rewinds and re-reads it",
+			Why:    "net/http's transport may still be reading the body of a failed attempt in its own goroutine when the retry rewinds and re-reads it",
 			Exempt: map[string]string{"agent/utils.newBufferedReadSeeker": "constructor"}})
 	}
 	// fields may not exist (gen): skip silently those without accesses except the three core ones
@@ -613,4 +615,167 @@ func c06Unblock(c *Ctx, p *Prog) {
 		}
 		c.Check("C06.E", "writer:publication-not-blocking-forever", p, wh.Pos(), ok, "the response is published in a select next to the request context's Done", "the publication of the response is a plain send: if the serialiser has already gone (request cancelled) the handler blocks forever")
 	}
+}
+
+// c06Retain: offset agreement inside bufferedReadSeeker.Read. With k bytes
+// replayed from the buffer and n bytes freshly read from the source into
+// p[k:], the bytes retained for a later replay must be p[k:k+n] (not p[:n]),
+// appended at writeHead, and k+n is what the caller is told. Decided by
+// evaluating the slice bounds for k=3, n=5 (and k=0, n=5).
+func c06Retain(c *Ctx, p *Prog) {
+	rd := c.need(p, "C06.B", "agent/utils.(*bufferedReadSeeker).Read")
+	if rd == nil {
+		return
+	}
+	recvP, bufP := rd.Params[0], rd.Params[1]
+	var copies []*ssa.Call
+	var src *ssa.Call
+	EachInstr(rd, func(i ssa.Instruction) {
+		call, ok := i.(*ssa.Call)
+		if !ok {
+			return
+		}
+		if b, isB := call.Call.Value.(*ssa.Builtin); isB && b.Name() == "copy" {
+			copies = append(copies, call)
+		}
+		if call.Call.IsInvoke() && call.Call.Method.Name() == "Read" {
+			if _, f, ok := FieldLoad(call.Call.Value); ok && f == "r" {
+				src = call
+			}
+		}
+	})
+	var replay, retain *ssa.Call
+	isBufSlice := func(v ssa.Value) *ssa.Slice {
+		sl, ok := v.(*ssa.Slice)
+		if !ok {
+			return nil
+		}
+		if base, f, ok := FieldLoad(sl.X); ok && f == "buf" && rootIs(base, recvP) {
+			return sl
+		}
+		return nil
+	}
+	for _, cp := range copies {
+		if isBufSlice(cp.Call.Args[1]) != nil {
+			replay = cp
+		}
+		if isBufSlice(cp.Call.Args[0]) != nil {
+			retain = cp
+		}
+	}
+	if src == nil || replay == nil || retain == nil || replay == retain {
+		c.Unk("C06.B", "read:shape", p, rd.Pos(), "Read is no longer `k := copy(p, buf[readHead:writeHead]); n := source.Read(p[k:]); copy(buf[writeHead:], <fresh bytes>)`: the retained prefix cannot be related to the bytes handed out")
+		return
+	}
+	c.OK("C06.B", "read:shape", p, rd.Pos(), "replay copy, one source read, retain copy")
+	var n ssa.Value
+	for _, r := range Refs(src) {
+		if ex, ok := r.(*ssa.Extract); ok && ex.Index == 0 {
+			n = ex
+		}
+	}
+	env := func(k, nn, wh int64) Env {
+		return func(v ssa.Value) (constant.Value, bool) {
+			switch {
+			case v == ssa.Value(replay):
+				return IntC(k), true
+			case n != nil && v == n:
+				return IntC(nn), true
+			case v == ssa.Value(retain):
+				return IntC(nn), true
+			}
+			if base, f, ok := FieldLoad(v); ok && rootIs(base, recvP) {
+				switch f {
+				case "writeHead":
+					return IntC(wh), true
+				}
+			}
+			return nil, false
+		}
+	}
+	bound := func(v ssa.Value, e Env, dflt int64) (int64, bool) {
+		if v == nil {
+			return dflt, true
+		}
+		cv, ok := Eval(v, e)
+		if !ok {
+			return 0, false
+		}
+		x, ok := constant.Int64Val(constant.ToInt(cv))
+		return x, ok
+	}
+	// window(v) = [lo,hi) relative to p, following nested slices of p; hi=-1: open
+	var window func(v ssa.Value, e Env) (int64, int64, bool)
+	window = func(v ssa.Value, e Env) (int64, int64, bool) {
+		if v == ssa.Value(bufP) {
+			return 0, -1, true
+		}
+		sl, ok := v.(*ssa.Slice)
+		if !ok {
+			return 0, 0, false
+		}
+		blo, bhi, ok := window(sl.X, e)
+		if !ok {
+			return 0, 0, false
+		}
+		lo, ok1 := bound(sl.Low, e, 0)
+		hi, ok2 := bound(sl.High, e, -1)
+		if !ok1 || !ok2 {
+			return 0, 0, false
+		}
+		nlo := blo + lo
+		nhi := bhi
+		if hi >= 0 {
+			nhi = blo + hi
+		}
+		return nlo, nhi, true
+	}
+	for _, t := range []struct{ k, n int64 }{{3, 5}, {0, 5}} {
+		e := env(t.k, t.n, 10)
+		lo, hi, ok := window(src.Call.Args[0], e)
+		c.Check("C06.B", fmt.Sprintf("read:source-fills-after-replayed[k=%d]", t.k), p, src.Pos(), ok && lo == t.k && hi == -1, "the source reads into p[k:]", fmt.Sprintf("with %d bytes replayed the source is read into p[%d:%d] rather than p[%d:]: replayed bytes are overwritten or a gap is left", t.k, lo, hi, t.k))
+		lo, hi, ok = window(retain.Call.Args[1], e)
+		c.Check("C06.B", fmt.Sprintf("read:retains-the-fresh-bytes[k=%d]", t.k), p, retain.Pos(), ok && lo == t.k && hi == t.k+t.n, "the bytes retained for replay are p[k:k+n], exactly those the source just produced", fmt.Sprintf("with k=%d bytes replayed and n=%d bytes read from the source, the buffer retains p[%d:%d] instead of p[%d:%d]: a later retry replays the wrong bytes (the upload body differs between attempts)", t.k, t.n, lo, hi, t.k, t.k+t.n))
+	}
+	// destination of the retain copy: buf[writeHead:]
+	dst := isBufSlice(retain.Call.Args[0])
+	e := env(3, 5, 10)
+	dlo, ok1 := bound(dst.Low, e, 0)
+	c.Check("C06.B", "read:retains-at-writeHead", p, retain.Pos(), ok1 && dlo == 10 && dst.High == nil, "retained bytes are appended at writeHead", "retained bytes are not appended at buf[writeHead:]: the stored prefix is no longer the stream prefix")
+	// replay source: buf[readHead:writeHead] into p
+	rs := isBufSlice(replay.Call.Args[1])
+	okr := replay.Call.Args[0] == ssa.Value(bufP) && rs.Low != nil && rs.High != nil
+	if okr {
+		_, f1, o1 := FieldLoad(rs.Low)
+		_, f2, o2 := FieldLoad(rs.High)
+		okr = o1 && o2 && f1 == "readHead" && f2 == "writeHead"
+	}
+	c.Check("C06.B", "read:replays-readHead-to-writeHead", p, replay.Pos(), okr, "the replay hands out buf[readHead:writeHead] into p", "the replay no longer copies buf[readHead:writeHead] to the start of p")
+	// heads advance by what was copied; result = k+n
+	for _, fld := range []string{"writeHead"} {
+		sts := StoresToField([]*ssa.Function{rd}, "agent/utils.bufferedReadSeeker", fld)
+		okw := len(sts) == 1
+		if okw {
+			cv, ok := Eval(sts[0].Val, e)
+			x, _ := constant.Int64Val(constant.ToInt(cvOr(cv, ok)))
+			okw = ok && x == 15
+		}
+		c.Check("C06.B", "read:"+fld+"-advances-by-retained", p, rd.Pos(), okw, fld+" advances by the number of bytes retained", fld+" does not advance by exactly the number of retained bytes: the buffer claims more or fewer prefix bytes than it holds")
+	}
+	okres := true
+	for _, r := range Returns(rd) {
+		cv, ok := Eval(ReturnValue(r, 0), e)
+		x, _ := constant.Int64Val(constant.ToInt(cvOr(cv, ok)))
+		if !ok || x != 8 {
+			okres = false
+		}
+	}
+	c.Check("C06.B", "read:reports-k-plus-n", p, rd.Pos(), okres, "Read reports replayed+fresh bytes", "Read does not report replayed+fresh bytes: the uploader sends a body of the wrong length")
+}
+
+func cvOr(cv constant.Value, ok bool) constant.Value {
+	if !ok || cv == nil {
+		return constant.MakeInt64(-999)
+	}
+	return cv
 }
